@@ -72,6 +72,11 @@ type FloodConfig struct {
 	// MaxSeenCacheSize limits the seen cache size
 	MaxSeenCacheSize int
 
+	// MaxHops is the maximum number of hops a route advertisement may travel
+	// from its origin (routing.max_hops). An advertisement whose path is longer
+	// is neither stored nor forwarded. Zero disables the limit.
+	MaxHops int
+
 	// LocalDisplayName is the display name to include in route advertisements
 	LocalDisplayName string
 
@@ -99,6 +104,7 @@ func DefaultFloodConfig() FloodConfig {
 		SeenCacheTTL:     5 * time.Minute,
 		FloodInterval:    1 * time.Second,
 		MaxSeenCacheSize: 10000,
+		MaxHops:          16,
 		TimestampWindow:  5 * time.Minute,
 	}
 }
@@ -273,6 +279,18 @@ func (f *Flooder) HandleRouteAdvertise(
 	// forwarded either - downstream agents would otherwise store a path that
 	// visits this agent twice.
 	if originAgent == f.localID || containsAgent(path, f.localID) {
+		return false
+	}
+
+	// Hop limit: the path runs from the sending peer back to the origin, so its
+	// length is our distance from the origin in hops. Beyond the configured
+	// limit the advertisement is neither stored nor forwarded.
+	if f.cfg.MaxHops > 0 && len(path) > f.cfg.MaxHops {
+		f.logger.Debug("route advertisement beyond hop limit",
+			"origin", originAgent.ShortString(),
+			"sequence", sequence,
+			"hops", len(path),
+			"max_hops", f.cfg.MaxHops)
 		return false
 	}
 
